@@ -47,8 +47,8 @@ LEVEL_TEXT = ("Exploration: thousands of generated cells per run; every reaction
               "(SI vs target and amount per mineral incl. restrictions, site totals per exchanger / surface site type from the "
               "database's own species list, solid-solution fractions and ideal activities).")
 FLOORS = {"quick": 400, "thorough": 3000}
-SHARDS = {"quick": 8, "thorough": 16}
-BUDGET = {"quick": 260, "thorough": 2600, "replay": 1}
+SHARDS = {"quick": 4, "thorough": 4}
+BUDGET = {"quick": 320, "thorough": 3200, "replay": 1}
 DBS = {"quick": ("phreeqc.dat", "phreeqc.dat", "phreeqc.dat", "wateq4f.dat", "pitzer.dat"),
        "thorough": ("phreeqc.dat", "phreeqc.dat", "wateq4f.dat", "pitzer.dat")}
 
@@ -357,6 +357,41 @@ def check_case(case, ctx):
     if db not in G.DB:
         raise Discard("unknown_db")
     os.chdir(ctx.scratch_dir())      # the engine writes error.inp into the current directory when a step does not converge
+    I = lib.fresh(db)
+    try:
+        I.seti("SetDumpStringOn", 1)
+        if "history" not in case:
+            return check_cell(case, ctx, I)
+        # several cells one after the other on the same instance: every cell is held to the same clauses
+        nt, cl, done = False, set(), 0
+        seen_nonideal = set()
+        for j, cell in enumerate(case["history"]):
+            try:
+                r = check_cell(cell, ctx, I)
+            except Discard:
+                if j == 0:
+                    raise
+                ctx.event("history_cut_by_error")
+                break
+            done += 1
+            nt = nt or r["nontrivial"]
+            cl.update(c for c in r["classes"] if not c.startswith(("stages=", "minerals=", "mode=")))
+            for s_ in cell.get("ss", []):
+                names = {c for c, _ in s_["comps"]}
+                if s_["nonideal"]:
+                    seen_nonideal |= names
+                elif names & seen_nonideal:
+                    cl.add("hist_ideal_ss_after_nonideal_sharing_component")
+        cl.add("history=%d" % done)
+        if len({c.get("base", 0) for c in case["history"][:done]}) < done:
+            cl.add("hist_numbers_redefined")
+        return {"nontrivial": nt and done >= 2, "classes": sorted(cl)}
+    finally:
+        I.close()
+
+
+def check_cell(case, ctx, I):
+    db = case["db"]
     P = G.plan(case)
     cols = P["cols"]
     res = {"worst": 0.0, "worst_site": 0.0, "worst_ss": 0.0, "asserted": 0,
@@ -368,9 +403,7 @@ def check_case(case, ctx):
     strict_ppt = strict and case.get("surf", {}).get("edl") not in ("donnan", "diffuse")
     tied = [k for k in ("exch", "surf") if case.get(k, {}).get("kind") in ("phase", "kin")]
     sites_off = False
-    I = lib.fresh(db)
-    try:
-        I.seti("SetDumpStringOn", 1)
+    if True:
         if I.run_string(P["sim0"]) != 0:
             raise Discard("initial_solution_error")
         start_pp = [p["moles"] for p in case.get("pp", [])]
@@ -416,8 +449,6 @@ def check_case(case, ctx):
             D = R.parse(I.dump())
             check_dump(case, D, stg["saved"], row, res, [k for k in tied if sites_off])
             done += 1
-    finally:
-        I.close()
     # ---- classes / non-trivial
     cl = ["db=" + db, "mode=" + case["mode"], "stages=%d" % done]
     npp = len([p for p in case.get("pp", []) if not p["alt"] and not p["name"].endswith("(g)")])
@@ -481,7 +512,9 @@ def check_case(case, ctx):
 
 
 def run(ctx):
-    ctx.hyp(G.case_strategy(DBS[ctx.tier]), lambda c: check_case(c, ctx), BUDGET[ctx.tier], "cells")
+    n = BUDGET[ctx.tier]
+    ctx.hyp(G.case_strategy(DBS[ctx.tier]), lambda c: check_case(c, ctx), n - n // 4, "cells")
+    ctx.hyp(G.history_strategy(DBS[ctx.tier]), lambda c: check_case(c, ctx), n // 8, "histories")
 
 
 # ------------------------------------------------------------------------------------------- development helper
